@@ -353,7 +353,7 @@ Qed.
 (* ------------------------------------------------------------------ refutation witness (suspicion j)
    The numbers are those of the real application (harness corpus entry 0): exact-out uatom -> uusdc -> uelys,
    sender 1, recipient 2: the sender pays 1806607 uatom (<= max) AND 9013258 uusdc from its own wallet. *)
-Definition wit_env : env := mkEnv (fun p => 100 + p)%nat (fun p => 200 + p)%nat (fun p => 300 + p)%nat.
+Definition wit_env : env := mkEnv (fun p => 100 + p)%nat (fun p => 200 + p)%nat (fun p => 300 + p)%nat (fun _ => false).
 Definition wit_bank : bank := fun a d =>
   if Nat.eqb a 1 then 1000000000000 else if Nat.eqb a 101 then 100000000000 else if Nat.eqb a 102 then 30000000000 else 0.
 Definition wit_req : req := mkReq 1 KOut 1 2 [(1, 0); (2, 1)]%nat 2 1000000 10000000 [] [].
